@@ -37,14 +37,14 @@ func NewMonC01() *MonC01 { return &MonC01{} }
 func (m *MonC01) Prop() string { return "C01" }
 func (m *MonC01) Init(w *World) {
 	m.applied = map[uint64]*pb.Entry{}
-	m.chain = map[uint64]uint64{0: 0}
+	m.chain = map[uint64]uint64{InitIndex: 0}
 }
 
 func (m *MonC01) OnEvent(w *World, rec *StepRec) []*Violation {
 	var out []*Violation
 	if s := rec.AppliedSnap; s != nil {
 		idx, term := s.GetMetadata().GetIndex(), s.GetMetadata().GetTerm()
-		if idx > 0 {
+		if idx > InitIndex {
 			if e, ok := m.applied[idx]; !ok {
 				out = append(out, &Violation{"C01", "snapshot-prefix", fmt.Sprintf("node %d installed a snapshot at index %d which no application ever applied", rec.Node+1, idx)})
 			} else if e.GetTerm() != term {
